@@ -45,7 +45,7 @@ def run(ctx):
     from .c05 import rule_same_text
     rule_same_text(ctx, facts, "C09-b")
     # (c)
-    _run_as(c13, _Only(ctx, "C09-c", ("prefix-template", "prefix-key", "separators", "kv-count-complete", "kind-new", "anchor-after-target", "post-target-first-only", "paren-anchor-only-without-target",
+    _run_as(c13, _Only(ctx, "C09-c", ("prefix-template", "prefix-key", "separators", "kv-count-complete", "kv-scan-complete", "kind-new", "anchor-after-target", "post-target-first-only", "paren-anchor-only-without-target",
                                       "G10|", "G14|", "G6|", "G15|", "G9|", "inner-handles", "post-target-span", "target-flag", "shift-span", "shift-paren", "key-constant")), ctx)
     from .finder import rule_statement_local_state
     rule_statement_local_state(ctx, facts, "C09-c")
